@@ -66,7 +66,7 @@ def verify(src, name, run_tests=True):
             res['demo_patched_output'] = out[-600:]
             if run_tests:
                 t = time.time()
-                rc, out = sh(f'{PY} -m pytest -q -p no:cacheprovider -x', cwd=wt, timeout=7200)
+                rc, out = sh(f'{PY} -m pytest -q -p no:cacheprovider -x -n 6', cwd=wt, timeout=7200)
                 res['tests_exit'] = rc
                 res['tests_tail'] = out.strip().splitlines()[-1] if out.strip() else ''
                 res['tests_wall_s'] = round(time.time() - t)
